@@ -70,6 +70,8 @@ fn gamma(a: Decimal) -> Decimal {
 }
 
 pub fn eval(expr: Node) -> Result<Decimal, Box<dyn error::Error>> {
+    #[cfg(feature = "verif_hooks")]
+    crate::verif_hooks::tick();
     use self::Node::*;
     match expr {
         Number(i) => Ok(i),
@@ -99,6 +101,8 @@ pub fn eval(expr: Node) -> Result<Decimal, Box<dyn error::Error>> {
                 } else {
                     let mut factorial_result = Decimal::new(1, 0);
                     for i in 2..=sub_result.to_i64().unwrap() {
+                        #[cfg(feature = "verif_hooks")]
+                        crate::verif_hooks::tick_loop();
                         factorial_result *= Decimal::new(i, 0);
                     }
                     Ok(factorial_result)
@@ -120,6 +124,8 @@ pub fn eval(expr: Node) -> Result<Decimal, Box<dyn error::Error>> {
                 .unwrap_or(4);
             let mut w = Decimal::ZERO;
             for _ in 0..iterations {
+                #[cfg(feature = "verif_hooks")]
+                crate::verif_hooks::tick_loop();
                 let exp_w = w.exp();
                 w -= (w * exp_w - sub_expr)
                     / (exp_w * (w + Decimal::new(1, 0))
@@ -133,6 +139,8 @@ pub fn eval(expr: Node) -> Result<Decimal, Box<dyn error::Error>> {
             let b = eval(*expr2)?;
             let mut x = Decimal::ZERO;
             while n > Decimal::new(1, 0) {
+                #[cfg(feature = "verif_hooks")]
+                crate::verif_hooks::tick_loop();
                 x += Decimal::new(1, 0);
                 n = (n.log10() / b.log10()).floor();
             }
